@@ -143,16 +143,65 @@ package keeper
 //@        && Store_tss[types.SigningStoreKey(signingID)] == enc(with(with(sg, "Signature", sig), "Status", types.SIGNING_STATUS_SUCCESS)))
 //@ ensures  err == nil ==> signingAt(Store_tss, signingID).Status == types.SIGNING_STATUS_SUCCESS
 
-//@ func (k Keeper) HandleExpiredSignings
+// protobuf: a message whose only field is a repeated one encodes to zero bytes exactly when the list is empty
+//@ axiom expEnc: forall x types.SigningExpirations :: (len(enc(x)) == 0) <==> (len(x.SigningExpirations) == 0)
+// the queue of signing expirations, in the order the attempts were started
+//@ spec expirations(s Store) []types.SigningExpiration = len(s[types.SigningExpirationsStoreKey]) == 0 ? zero("[]types.SigningExpiration") : dec(types.SigningExpirations, s[types.SigningExpirationsStoreKey]).SigningExpirations
+
+// C10: the members of an attempt that have not submitted their share: exactly the assigned members without a stored
+// partial signature for (signing, attempt), by address
+//@ func (k Keeper) GetMembersNotSubmitSignature
+//@ may_panic calls
+//@ unfold
+//@ ensures forall j :: 0 <= j && j < len(result) ==> (exists i :: 0 <= i && i < len(attemptAt(Store_tss, signingID, attempt).AssignedMembers)
+//@        && result[j] == bech32addr(attemptAt(Store_tss, signingID, attempt).AssignedMembers[i].Address)
+//@        && !has(Store_tss, types.PartialSignatureStoreKey(signingID, attempt, attemptAt(Store_tss, signingID, attempt).AssignedMembers[i].MemberID)))
+//@ ensures forall i :: 0 <= i && i < len(attemptAt(Store_tss, signingID, attempt).AssignedMembers)
+//@        && !has(Store_tss, types.PartialSignatureStoreKey(signingID, attempt, attemptAt(Store_tss, signingID, attempt).AssignedMembers[i].MemberID))
+//@        ==> (exists j :: 0 <= j && j < len(result) && result[j] == bech32addr(attemptAt(Store_tss, signingID, attempt).AssignedMembers[i].Address))
+//@ loop 0: invariant forall j :: 0 <= j && j < len(memberAddrs) ==> (exists i :: 0 <= i && i < #i
+//@        && memberAddrs[j] == bech32addr(signingAttempt.AssignedMembers[i].Address)
+//@        && !has(Store_tss, types.PartialSignatureStoreKey(signingID, attempt, signingAttempt.AssignedMembers[i].MemberID)))
+//@ loop 0: invariant forall i :: 0 <= i && i < #i
+//@        && !has(Store_tss, types.PartialSignatureStoreKey(signingID, attempt, signingAttempt.AssignedMembers[i].MemberID))
+//@        ==> (exists j :: 0 <= j && j < len(memberAddrs) && memberAddrs[j] == bech32addr(signingAttempt.AssignedMembers[i].Address))
+
+// interim data of one attempt: its partial signatures (iterator deletions), their count and the attempt record
+//@ func (k Keeper) DeletePartialSignatures
 //@ trusted
+//@ modifies Store_tss
+//@ ensures forall q Bz :: !iskey(types.PartialSignatureStoreKey, q) ==> Store_tss[q] == old(Store_tss)[q]
+
+// C10: expiry processing. The queue of expirations is consumed strictly from the front: what remains is exactly the old
+// queue without a processed prefix; processing stops at the first attempt that has not reached its expiry height; the
+// interim data of every processed attempt is gone; every signing handed back for a retry is one of the processed
+// entries, and it is handed back only because shares were missing (then its owner's time-out callback has been run
+// with the members that did not submit). Signing and group records, parameters and the pending list are not touched.
+//@ func (k Keeper) HandleExpiredSignings
+//@ may_panic calls
 //@ modifies Store_tss, Other, Bank
 //@ ensures  Store_tss[types.PendingSigningsStoreKey] == old(Store_tss)[types.PendingSigningsStoreKey]
-// expiry handling deletes interim data and (through the owner's timeout callback) may deactivate members; it never
-// touches signing or group records, and every id it returns is an existing signing
 //@ ensures  forall id Int :: Store_tss[types.SigningStoreKey(id)] == old(Store_tss)[types.SigningStoreKey(id)]
 //@ ensures  forall g Int :: Store_tss[types.GroupStoreKey(g)] == old(Store_tss)[types.GroupStoreKey(g)]
 //@ ensures  Store_tss[types.ParamsKey] == old(Store_tss)[types.ParamsKey]
 //@ ensures  forall j :: 0 <= j && j < len(result) ==> has(Store_tss, types.SigningStoreKey(result[j]))
+//@ ensures  (let n = len(old(expirations(Store_tss))) - len(expirations(Store_tss)) in 0 <= n && n <= len(old(expirations(Store_tss)))
+//@        && (forall j :: 0 <= j && j < len(expirations(Store_tss)) ==> expirations(Store_tss)[j] == old(expirations(Store_tss))[n + j]))
+//@ ensures  (let n = len(old(expirations(Store_tss))) - len(expirations(Store_tss)) in
+//@        (forall j :: 0 <= j && j < n ==> !has(Store_tss, types.SigningAttemptStoreKey(old(expirations(Store_tss))[j].SigningID, old(expirations(Store_tss))[j].SigningAttempt))
+//@                                          && !has(Store_tss, types.PartialSignatureCountStoreKey(old(expirations(Store_tss))[j].SigningID, old(expirations(Store_tss))[j].SigningAttempt))))
+//@ ensures  (let n = len(old(expirations(Store_tss))) - len(expirations(Store_tss)) in
+//@        (n < len(old(expirations(Store_tss))) ==> attemptAt(Store_tss, old(expirations(Store_tss))[n].SigningID, old(expirations(Store_tss))[n].SigningAttempt).ExpiredHeight > ctx.BlockHeight()))
+//@ ensures  (let n = len(old(expirations(Store_tss))) - len(expirations(Store_tss)) in
+//@        (forall j :: 0 <= j && j < len(result) ==> (exists i :: 0 <= i && i < n && result[j] == old(expirations(Store_tss))[i].SigningID)))
+// a signing joins the retry list only when shares are missing
+//@ assert after signingIDs#2: partialSigCount != len(sa.AssignedMembers)
+//@ loop 0: invariant idx == #i && signingExpirations == old(expirations(Store_tss))
+//@ loop 0: invariant Store_tss[types.PendingSigningsStoreKey] == old(Store_tss)[types.PendingSigningsStoreKey] && Store_tss[types.ParamsKey] == old(Store_tss)[types.ParamsKey] && Store_tss[types.SigningExpirationsStoreKey] == old(Store_tss)[types.SigningExpirationsStoreKey]
+//@ loop 0: invariant forall id Int :: Store_tss[types.SigningStoreKey(id)] == old(Store_tss)[types.SigningStoreKey(id)]
+//@ loop 0: invariant forall g Int :: Store_tss[types.GroupStoreKey(g)] == old(Store_tss)[types.GroupStoreKey(g)]
+//@ loop 0: invariant forall j :: 0 <= j && j < len(signingIDs) ==> has(Store_tss, types.SigningStoreKey(signingIDs[j])) && (exists i :: 0 <= i && i < #i && signingIDs[j] == signingExpirations[i].SigningID)
+//@ loop 0: invariant forall j :: 0 <= j && j < #i ==> !has(Store_tss, types.SigningAttemptStoreKey(signingExpirations[j].SigningID, signingExpirations[j].SigningAttempt)) && !has(Store_tss, types.PartialSignatureCountStoreKey(signingExpirations[j].SigningID, signingExpirations[j].SigningAttempt))
 
 // A new signing round may leave partial writes in its context when it fails, so it must be run in an
 // isolated cache context (one with no other uncommitted writes) that the caller discards on error.
@@ -194,6 +243,7 @@ package keeper
 // End block: every signing in the pending list is aggregated while its interim data is still present
 // (i.e. before expiry handling), the list is emptied, and each retry runs in its own isolated cache context.
 //@ func (k Keeper) HandleSigningEndBlock
+//@ may_panic calls
 //@ modifies Store_tss, Other, Bank
 //@ requires wfPending(Store_tss)
 //@ requires wfSignings(Store_tss)
@@ -307,7 +357,8 @@ package keeper
 // the counter reaches the number of assigned members. A rejected share changes nothing.
 //@ func (k msgServer) SubmitSignature
 //@ modifies Store_tss
-//@ requires req.Signature != nil
+// (stateless validation of the message, MsgSubmitSignature.ValidateBasic, verified on its own)
+//@ requires tss.sigWellFormed(req.Signature)
 //@ ensures err != nil ==> Store_tss == old(Store_tss)
 //@ ensures err == nil ==> old(has(Store_tss, types.SigningStoreKey(req.SigningID))) && old(signingAt(Store_tss, req.SigningID)).Status == types.SIGNING_STATUS_WAITING
 //@        && old(has(Store_tss, types.SigningAttemptStoreKey(req.SigningID, signingAt(Store_tss, req.SigningID).CurrentAttempt)))
@@ -339,7 +390,7 @@ package keeper
 // record is flagged malicious, and as FALLEN otherwise; rounds 1 and 2 just advance (round 1 also fixes the group
 // key = accumulated commitment 0). Only this group's record is written in the tss store.
 //@ func (k Keeper) HandleProcessGroup
-//@ may_panic
+//@ may_panic calls
 //@ modifies Store_tss, Other, Bank
 //@ requires has(Store_tss, types.GroupStoreKey(groupID)) ==> groupAt(Store_tss, groupID).ID == groupID
 //@ ensures forall q Bz :: q != types.GroupStoreKey(groupID) ==> Store_tss[q] == old(Store_tss)[q]
